@@ -3,6 +3,7 @@ package ref
 import (
 	"fmt"
 	"math/rand"
+	"strings"
 
 	"github.com/d5/tengo/v2/parser"
 	"github.com/d5/tengo/v2/token"
@@ -274,6 +275,12 @@ func (in *Interp) execForIn(st *parser.ForInStmt, env *Env) ctl {
 			return stv.el[off+i]
 		}
 	case *Map:
+		if len(x.M) > 1 && !(strings.HasPrefix(st.Key.Name, "mk") || strings.HasPrefix(st.Value.Name, "me")) {
+			// Only loops that the generator declares order-independent (by naming
+			// their variables mk*/me*: commutative bodies) are judged; any other
+			// iteration over a map with several keys depends on the order.
+			in.unspec("iteration over a map with several keys depends on map iteration order")
+		}
 		keys := in.mapKeys(x)
 		n = len(keys)
 		x.iterating++
